@@ -27,7 +27,8 @@ def parseCalls : Nat → List String → Option (List (Nat × Bytes) × List Str
 def encCalls (cs : List (Nat × Bytes)) : String :=
   unwords (toString cs.length :: cs.flatMap (fun c => [toString c.1, Hex.enc c.2]))
 
-def handle (args impl : List String) : Option (String × String) :=
+def handle (cmd : String) (args impl : List String) : Option (String × String) :=
+  if cmd ≠ "c06.turns" then none else
   match args with
   | mx :: cut :: sk :: bs :: _buf :: nt :: rest => do
     let max ← nat? mx
